@@ -23,7 +23,9 @@ type c12Case struct {
 }
 
 var c12Alphabet = []string{"", ".", "..", "a", "b", "ab", "a-b", "a/b", "a/c", "a/b/c", "b/a",
-	"../a", "a/..", "a/../b", "/a", "a/", "a//b", "./a", "..a"}
+	"../a", "a/..", "a/../b", "/a", "a/", "a//b", "./a", "..a",
+	// first bytes below '.', where a root record keyed "." instead of "" would sort wrongly
+	"-a", "-a/x", "-ab", "+", "+/a"}
 
 func shardInfo() (int, int) {
 	sh, _ := strconv.Atoi(os.Getenv("VERIF_SHARD"))
@@ -36,7 +38,12 @@ func shardInfo() (int, int) {
 
 // validatorFirstReject runs a fresh Validator over seq and returns the index
 // of the first rejected element or -1.
-func validatorFirstReject(seq []h.SpecElem) int {
+func validatorFirstReject(seq []h.SpecElem) (idx int) {
+	defer func() {
+		if p := recover(); p != nil {
+			idx = -2 // the validator panicked: never equal to the specification's verdict
+		}
+	}()
 	var v fsutil.Validator
 	for i, e := range seq {
 		var err error
@@ -305,7 +312,7 @@ func genC12(t *rapid.T) *c12Case {
 	return &c12Case{Seq: seq}
 }
 
-var sortedNames = []string{"..a", ".x", "A", "a", "a-b", "a.b", "a0", "ab", "b", "c", "z", "é"}
+var sortedNames = []string{" x", "#t", "$R", "+", "-a", "-ab", "..a", ".x", "A", "a", "a-b", "a.b", "a0", "ab", "b", "c", "z", "é"}
 
 func TestC12(t *testing.T) {
 	r := h.NewRunner("C12")
@@ -347,7 +354,7 @@ func FuzzC12Validator(f *testing.F) {
 		want := h.StreamSpec(seq)
 		got := validatorFirstReject(seq)
 		if got != want {
-			t.Fatalf("validator first-reject %d, specification %d, sequence %s", got, want, fmtSeq(seq))
+			t.Fatalf("validator first-reject %d (-2 = panic), specification %d, sequence %s", got, want, fmtSeq(seq))
 		}
 	})
 }
